@@ -411,3 +411,14 @@ Theorem C01_wvtt_short_refuted : decode ex_wvtt_short = Ok (treeof ex_wvtt_short
   match encode_w (treeof ex_wvtt_short) with Ok enc => lenN enc = 16 | _ => False end.
 Proof. exact wvtt_short_refuted. Qed.
 Print Assumptions C01_wvtt_short_refuted.
+
+(* (c) the two ghost guards (leaf_guard of LEsds / LSgpd) exclude inputs that are really NOT reproduced; each by a witness that
+   the search replays on the real code: an esds size field of eleven bytes whose leading group overflows readSizeSize's uint64
+   (C01-K77), and the reserved byte of a seig entry of sgpd (C01-K58).  An esds that merely kept UnknownData IS reproduced
+   (C01_esds_slconfig_size_fixed); it is outside C01_fixpoint only because print-then-parse is not proved for that shape. *)
+Theorem C01_esds_size_overflow_refuted : refutes w_esds_overflow [(n_esds, RGuard); (n_esds, RRsv false 2)].
+Proof. exact esds_overflow_refuted. Qed.
+Print Assumptions C01_esds_size_overflow_refuted.
+Theorem C01_sgpd_seig_reserved_refuted : refutes w_sgpd_seig_rsv [(n_sgpd, RGuard); (n_sgpd, RRsv true 0)].
+Proof. exact sgpd_seig_rsv_refuted. Qed.
+Print Assumptions C01_sgpd_seig_reserved_refuted.
